@@ -476,6 +476,7 @@ def run(ctx, res):
     # representation- and history-robustness of the public functions (harness/apirobust.py)
     from .. import apirobust_cases as _AC
     _AC.c20(res, np.random.default_rng(ctx["seed"] + 4242), ctx)
+    _AC.c20_many_data(res, np.random.default_rng(ctx["seed"] + 4243), ctx)
 
 
 def compare(res, kernel, inp, want, line):
